@@ -10,6 +10,7 @@ from typing import (
     MutableMapping,
     Optional,
     Sequence,
+    Set,
     Tuple,
     TypeVar,
     overload,
@@ -114,10 +115,25 @@ def sort_by_order(
     # Entries are (name, element, is placeholder); fields can be ordered relatively to
     # serialized methods, which are not elements of all the views (e.g. deserialization
     # schema), so they are added as placeholders in order not to lose these fields.
+    # The same goes for the fields which are not elements of the view (skipped, init=False,
+    # flattened, etc.): they are placeholders too, at their declaration position.
     Entry = Tuple[str, Optional[T], bool]
-    entries: List[Tuple[Entry, Optional[Ordering]]] = [
-        ((name(elt), elt, False), order(elt)) for elt in elts
-    ]
+    elt_by_name = {name(elt): elt for elt in elts}
+    entries: List[Tuple[Entry, Optional[Ordering]]] = []
+    if isinstance(cls, type):
+        from apischema.objects import object_fields
+
+        try:
+            declared_fields = object_fields(cls)
+        except Exception:
+            declared_fields = {}
+        for field_name, field in declared_fields.items():
+            if field_name in elt_by_name:
+                elt = elt_by_name.pop(field_name)
+                entries.append(((field_name, elt, False), order(elt)))
+            else:
+                entries.append(((field_name, None, True), field.ordering))
+    entries.extend(((name(elt), elt, False), order(elt)) for elt in elt_by_name.values())
     elt_names = {entry[0] for entry, _ in entries}
     if isinstance(cls, type):
         for serialized, _ in get_serialized_methods(cls):
@@ -142,9 +158,13 @@ def sort_by_order(
     if not after and not before and len(groups) == 1:
         return [elt for _, elt, placeholder in groups.popitem()[1] if not placeholder]  # type: ignore
     result: List[T] = []
+    added: Set[str] = set()
 
     def add_to_result(entry: Entry):
         entry_name, elt, placeholder = entry
+        if entry_name in added:
+            return
+        added.add(entry_name)
         for before_entry in before[entry_name]:
             add_to_result(before_entry)
         if not placeholder:
@@ -155,4 +175,7 @@ def sort_by_order(
     for value in sorted(groups):
         for entry in groups[value]:
             add_to_result(entry)
+    # elements ordered relatively to an unknown element (or in a cycle) are not lost
+    for entry, _ in entries:
+        add_to_result(entry)
     return result
